@@ -1186,4 +1186,25 @@ def _addr_from_sa(ex, p, m, a, func, fr):
     return one(Enum(bv64(1), {'Socket': (a[0],)}, 'Address'))
 
 
+@model(r'^<(?:std::option::)?Option<(.+)> as (?:std::cmp::)?PartialEq>::(eq|ne)$')
+def _opt_eq(ex, p, m, a, func, fr):
+    x, y = B(ex, p, a[0]), B(ex, p, a[1])
+    if not (isinstance(x, Enum) and isinstance(y, Enum)):
+        return None
+    px, py = x.payloads.get('Some'), y.payloads.get('Some')
+    both = z3.And(x.disc != 0, y.disc != 0)
+    if px and py:
+        vx, vy = B(ex, p, px[0]), B(ex, p, py[0])
+        if isinstance(vx, tuple) and isinstance(vy, tuple):
+            inner = vx[0] == vy[0]
+        else:
+            a1, o1, l1 = ex.bytes_view(p.st, vx)
+            a2, o2, l2 = ex.bytes_view(p.st, vy)
+            inner = bytes_equal(a1, o1, l1, a2, o2, l2)
+    else:
+        inner = F
+    e = z3.Or(z3.And(x.disc == 0, y.disc == 0), z3.And(both, inner))
+    return one((e if m.group(2) == 'eq' else z3.Not(e), 'bool'))
+
+
 from . import timemodel  # noqa: E402  (registers the std::time contracts)
